@@ -4,6 +4,7 @@ set -e
 cd "$(dirname "$0")"
 export CARGO_NET_OFFLINE=true
 mkdir -p build evidence replays target
+ln -sfn /repo repo-link
 gcc -O2 -Wall -Wextra -Wno-nonnull-compare -shared -fPIC -o build/libsimenv.so shim/simenv_shim.c -ldl
 (cd sim && RUSTFLAGS="--cfg grex_verif" CARGO_TARGET_DIR=/verif/target/sim cargo build --release --offline --bins)
 env -u RUSTFLAGS CARGO_TARGET_DIR=/verif/target/repo-cli cargo build --release --offline --bin grex --manifest-path /repo/Cargo.toml
